@@ -67,13 +67,21 @@ PROPS = {
         "rules": [], "level": "other",
     },
     "C07": {
-        "clause": "NARROW: the six default methods of the array traits (to_range exactly; shapes and internal "
-                  "preconditions of sum, sort_by, segmented_sum, segmented_arange, is_empty); the Vec loops are not decided",
-        "entries": ["array::traits::"],
+        "clause": "the Vec backend's primitives agree with the array contract the rest of the library is analysed against "
+                  "(VECSPEC): for symbolic arguments inside the contract's preconditions, the return value and the "
+                  "post-state of every VecArray primitive are term-equal to the contract's scalar definition (loops "
+                  "summarised exactly by the fold idioms: element-wise map, append, indexed in-place update, running "
+                  "sum, conditional push); open choices (scatter filler) as refinements; plus the six default methods "
+                  "of the array traits (to_range exactly). NOT decided (declared by rule VECCOVER): connected_components "
+                  "(union-find) and sparse_bincount (hash map)",
+        "entries": ["array::traits::", "array::vec::vec_array::VecArray<", "array::vec::vec_array::<impl std::ops::Add<"],
         "anchors": ["array::traits::Array::to_range", "array::traits::NaturalArray::segmented_sum",
                     "array::traits::NaturalArray::segmented_arange", "array::traits::NaturalArray::sum",
-                    "array::traits::OrdArray::sort_by", "array::traits::Array::is_empty"],
-        "rules": [], "level": "proof",
+                    "array::traits::OrdArray::sort_by", "array::traits::Array::is_empty",
+                    "NaturalArray<array::vec::vec_array::VecKind>>::scatter_sub_assign",
+                    "NaturalArray<array::vec::vec_array::VecKind>>::bincount",
+                    "Array<array::vec::vec_array::VecKind, T>>::gather"],
+        "rules": ["VECCOVER"], "level": "proof",
     },
     "C08": {
         "clause": "segmented arrays: checked construction accepts iff sizes sum to the value length (codomain sum+1); "
